@@ -16,6 +16,13 @@ Upd == /\ More /\ Ev.op = "update"
 Rst == /\ More /\ Ev.op = "reset" /\ UserReset
        /\ Chk("total", total', Ev.total) /\ Chk("since", since', Ev.since) /\ Chk("state", st', Ev.state) /\ Chk("recs", recs', Ev.recs)
        /\ Chk("len(all_drift_states)", total', Ev.nstates) /\ Adv
+(* a call with several labels at once is refused: nothing changes, except that the restart pending after a reported drift has already been
+   performed (LinearFourRates restarts before it validates) *)
+Bad == /\ More /\ Ev.op = "bad"
+       /\ \/ UNCHANGED lfrvars
+          \/ st = "drift" /\ UserReset
+       /\ Chk("total", total', Ev.total) /\ Chk("since", since', Ev.since) /\ Chk("state", st', Ev.state) /\ Chk("recs", recs', Ev.recs)
+       /\ Chk("len(all_drift_states)", total', Ev.nstates) /\ ChkB("refused with ValueError", Ev.raised = "ValueError", Ev.raised) /\ Adv
 Diag == Note("Monte-Carlo bounds not well-formed, not inside their bracket on first use, or changed for a cached key",
              More /\ Ev.op = "update" /\ Tested((IF st = "drift" THEN 0 ELSE since) + 1) /\
              \E r \in lcfg.tracked : ~Ev.b[r].na /\
@@ -24,6 +31,6 @@ Diag == Note("Monte-Carlo bounds not well-formed, not inside their bracket on fi
                 \/ Known(Key(r, c1)) /\ Ev.b[r] # cache[Lookup(Key(r, c1))][2]
                 \/ ~Known(Key(r, c1)) /\ ~\E r2 \in lcfg.tracked : Key(r2, c1) = Key(r, c1) /\ Ev.b[r2] = Ev.b[r] /\ BracketOK(Ev.b[r2], Ev.br[r2]),
              <<"bounds", Ev.b, "brackets", Ev.br>>)
-Next == Diag /\ (Upd \/ Rst)
+Next == Diag /\ (Upd \/ Rst \/ Bad)
 Spec == Init /\ [][Next]_tvars
 =============================================================================
